@@ -32,8 +32,11 @@ def exec_CMP(t):
     a = [int(c) for c in parse_list(t[7])]
     b = [int(c) for c in parse_list(t[8])]
     try:
+        # (a NumPy scalar on the left makes NumPy dispatch the comparison; `array_op_method='raw'` is the documented way to ask NumPy
+        # operations for raw codes, so that option stays at its default for the Fxp operand of such a line)
+        keep = {'array_op_method': 'repr'} if kind == 'nf' else {}
         X = mk(a, sx, nx, fx) if kind != 'nf' else (_val(a, fx)[0] if len(a) == 1 else np.array([float(v) for v in _val(a, fx)]))
-        Y = mk(b, sy, ny, fy) if kind != 'fn' else (_val(b, fy)[0] if len(b) == 1 else np.array([float(v) for v in _val(b, fy)]))
+        Y = mk(b, sy, ny, fy, **keep) if kind != 'fn' else (_val(b, fy)[0] if len(b) == 1 else np.array([float(v) for v in _val(b, fy)]))
         # the plain number is a Python scalar or (content-determined) the NumPy scalar of the same value: np.float64 / np.int64 are
         # the numbers NumPy code has in its hands
         npnum = lambda v: (np.int64(v) if isinstance(v, int) else np.float64(v)) if not isinstance(v, np.ndarray) and (a[0] + b[0] + nx) % 2 else v
